@@ -9,6 +9,7 @@ DONE = {
  'C06': 'slashing synchronisation: booked = delegated exactly, pools within 2 units of pro-rata share, unchanged without slashing',
  'C10': 'every privileged message variant of all six contracts: no Ok path for a sender that is not the designated principal (symbolic sender/message/stored principals); two-step ownership transfer',
  'C11': 'paused hub: every variant except UpdateParams/MigrateUnbondWaitList has no Ok path for any sender; no unpause with legacy entries; queries never read the pause flag',
+ 'C13': 'registry RemoveValidator (1..3 validators, symbolic address/delegation/can_redelegate): validator gone, never the last one, one RedelegateProxy moving the whole delegation to remaining registered validators + UpdateGlobalIndex; hub proxy forwards 1:1',
  'C14': 'reward contract: INV-RW (sum accrued <= recorded <= bank; sum balances = total) inductive over every message; claim pays whole units and keeps the fraction; index update strands < 1 unit',
  'C15': 'reward contract: per-step frame/settle/proportionality equalities in exact atomics + paired executions (both orders) of independent operations',
  'C16': 'bSei token: per address the balance change equals the net of the Increase/Decrease messages sent first to the reward contract; reward side changes holder and total by exactly the amount',
